@@ -211,18 +211,29 @@ impl<TStdlib: Stdlib, TStdIn: Input, TStdOut: Printer, TLpt1: Printer> Interpret
                 },
                 Err(e) => {
                     self.last_error_code = Some(e.err().get_code());
+                    // an error raised by a built-in already carries the stacktrace
+                    let is_built_in = matches!(
+                        instruction,
+                        Instruction::BuiltInSub(_) | Instruction::BuiltInFunction(_)
+                    );
                     match ctx.error_handler {
                         ErrorHandler::Address(handler_address) => {
+                            self.abandon_failed_call(is_built_in);
                             // store error address, so we can call RESUME and RESUME NEXT from within the error handler
                             self.context.push_error_handler_context();
                             self.last_error_address = Some(i);
                             i = handler_address;
                         }
                         ErrorHandler::Next => {
+                            self.abandon_failed_call(is_built_in);
                             i = ctx.nearest_statement_finder.find_next(i);
                         }
                         ErrorHandler::None => {
-                            return Err(e.with_stacktrace(&mut self.stacktrace));
+                            return Err(if is_built_in {
+                                e
+                            } else {
+                                e.with_stacktrace(&mut self.stacktrace)
+                            });
                         }
                     }
                 }
@@ -429,12 +440,16 @@ impl<TStdlib: Stdlib, TStdIn: Input, TStdOut: Printer, TLpt1: Printer>
             Instruction::BuiltInSub(s) => {
                 // the stacktrace should be already populated by Instruction::PushStack
                 debug_assert!(!self.stacktrace.is_empty());
-                super::built_ins::run_sub(s, self).with_stacktrace(&mut self.stacktrace)?;
+                // the stacktrace itself stays intact, in case the error is handled
+                let mut stacktrace = self.stacktrace.clone();
+                super::built_ins::run_sub(s, self).with_stacktrace(&mut stacktrace)?;
             }
             Instruction::BuiltInFunction(f) => {
                 // the stacktrace should be already populated by Instruction::PushStack
                 debug_assert!(!self.stacktrace.is_empty());
-                super::built_ins::run_function(f, self).with_stacktrace(&mut self.stacktrace)?;
+                // the stacktrace itself stays intact, in case the error is handled
+                let mut stacktrace = self.stacktrace.clone();
+                super::built_ins::run_function(f, self).with_stacktrace(&mut stacktrace)?;
             }
             Instruction::Label(_) => (), // no-op
             Instruction::Halt => {
@@ -625,6 +640,18 @@ impl<TStdlib: Stdlib, TStdIn: Input, TStdOut: Printer, TLpt1: Printer>
             printer.println()?;
         }
         Ok(())
+    }
+
+    /// Leaves the call that was in progress when a handled error occurred:
+    /// the context and stacktrace entry of a failed built-in (it was entered
+    /// with `PushStack`, its `PopStack` will never run) and the argument
+    /// collecting states of calls whose arguments were being evaluated.
+    fn abandon_failed_call(&mut self, is_built_in: bool) {
+        if is_built_in {
+            self.context.pop();
+            self.stacktrace.remove(0);
+        }
+        self.context.drop_collecting_arguments();
     }
 
     /// Gets the instruction address where the most recent error occurred.
